@@ -17,9 +17,21 @@ from .serialization import (
     cell_to_parent,
     get_stride,
     is_first_child,
-    FIRST_HILBERT_RESOLUTION
+    FIRST_HILBERT_RESOLUTION,
+    HILBERT_START_BIT
 )
 from .cell_info import get_num_children
+
+
+def _hierarchical_key(cell: int) -> int:
+    """Sort key under which a cell falls inside the id range spanned by its ancestor.
+
+    Resolution 0 ids carry the origin in their top bits whereas all finer ids carry
+    5 * origin + segment, so the raw ids do not sort a resolution 0 cell next to its relatives.
+    """
+    if get_resolution(cell) == 0:
+        return cell + ((4 * (cell >> HILBERT_START_BIT)) << HILBERT_START_BIT)
+    return cell
 
 
 def uncompact(cells: List[int], target_resolution: int) -> List[int]:
@@ -80,7 +92,7 @@ def compact(cells: List[int]) -> List[int]:
         return []
 
     # Single sort and dedup
-    current_cells = sorted(set(cells))
+    current_cells = sorted(set(cells), key=_hierarchical_key)
 
     # Compact until no more changes
     # No re-sorting needed - parents maintain sorted order!
